@@ -4,6 +4,7 @@ import c19
 import life
 import comm
 import spawn
+import builder
 
 CHECKS = {
     "C20": c20.check,
@@ -19,6 +20,7 @@ CHECKS = {
     "C15": spawn.check,
     "C17": spawn.check,
     "C18": spawn.check,
+    "C16": builder.check,
     "C09": life.check,
     "C10": life.check,
     "C11": life.check,
